@@ -215,8 +215,15 @@ func c31GenPCol(t *rapid.T, name string, n int, c *c31Case) *c31PCol {
 		tz := c31Pick(t, "tz", "", "UTC")
 		col.Type = &arrow.TimestampType{Unit: unit, TimeZone: tz}
 		col.I = make([]int64, n)
+		far := unit != arrow.Nanosecond && c31Chance(t, "tsfar", 35)
+		if far {
+			c.class("pq:timestamp-outside-1677..2262")
+		}
 		for i := range col.I {
 			sec := rapid.Int64Range(-2_000_000_000, 7_000_000_000).Draw(t, "tssec")
+			if far && c31Chance(t, "tsfarcell", 50) {
+				sec = c31FarSec(t)
+			}
 			nsec := rapid.Int64Range(0, 999_999_999).Draw(t, "tsnsec")
 			col.I[i], col.Want[i] = c31TSValue(sec, nsec, unit)
 		}
@@ -241,6 +248,26 @@ func c31GenPCol(t *rapid.T, name string, n int, c *c31Case) *c31PCol {
 		}
 	}
 	return col
+}
+
+// c31FarSec draws an instant (unix seconds) far outside the range a signed
+// 64-bit NANOSECOND count can hold (1677-09-21 .. 2262-04-11): historical dates
+// and the 9999-12-31 "open end" sentinel of warehouse exports. Legal for
+// second / millisecond / microsecond TIMESTAMP columns only.
+func c31FarSec(t *rapid.T) int64 {
+	switch c31Uniform(t, "farkind", 6) {
+	case 0:
+		return 253402300799 // 9999-12-31T23:59:59Z
+	case 1:
+		return 253402214400 // 9999-12-31T00:00:00Z
+	case 2:
+		return 10413792000 + rapid.Int64Range(0, 86400*365).Draw(t, "far2300") // year 2300
+	case 3:
+		return -11676096000 + rapid.Int64Range(0, 86400*365).Draw(t, "far1600") // year 1600
+	case 4:
+		return rapid.Int64Range(9_300_000_000, 250_000_000_000).Draw(t, "farfuture")
+	}
+	return rapid.Int64Range(-60_000_000_000, -9_300_000_000).Draw(t, "farpast")
 }
 
 // c31TSValue returns the raw value in the unit and the canonical int64-micros cell.
@@ -346,6 +373,10 @@ func c31GenPTimeCol(t *rapid.T, name string, n int, c *c31Case) (*c31PCol, strin
 		col.Type = &arrow.TimestampType{Unit: unit, TimeZone: c31Pick(t, "ptz", "", "UTC")}
 		col.I = make([]int64, n)
 		param = c31Pick(t, "ptsparam", "", "", "epoch_s", "epoch_ns") // ignored for TIMESTAMP columns
+		if unit != arrow.Nanosecond && c31Chance(t, "ptsfar", 25) {
+			baseSec = c31FarSec(t)
+			c.class("pqtime:timestamp-outside-1677..2262")
+		}
 		for i := range col.I {
 			sec, nsec := inst()
 			var cell string
@@ -639,5 +670,6 @@ func c31GenParquet(t *rapid.T) *c31Case {
 	if either {
 		c.class("pq:either-outcome")
 	}
+	c31DrawFault(t, c)
 	return c
 }
